@@ -8,6 +8,7 @@ import TLX.Drv.PktNum
 import TLX.Drv.Suite
 import TLX.Drv.TcpOut
 import TLX.Drv.Csum
+import TLX.Drv.Keys
 
 def main (args : List String) : IO UInt32 := do
   match args with
@@ -15,4 +16,5 @@ def main (args : List String) : IO UInt32 := do
   | ["suite"] => TLX.Drv.Suite.main; return 0
   | ["tcpout"] => TLX.Drv.TcpOut.main; return 0
   | ["csum"] => TLX.Drv.Csum.main; return 0
+  | ["keys"] => TLX.Drv.Keys.main; return 0
   | _ => IO.eprintln "usage: tlxdriver <module>"; return 2
